@@ -9,13 +9,14 @@ channel.rs `spawn/resume/yield`). Statements are over `runTrace`: ANY finite seq
 `(thread, op)` — i.e. every interleaving any scheduler can produce — from any/the initial state.
 Helper lemmas: `GluonModel.Proofs.Chan`.
 
-The last clause is FALSE for the code as it is (defect D8, vm/src/lazy.rs:146: a failed thunk leaves
-`Blackhole(owner)`): `lazy_failure_errors_fails` is the witness, `lazy_failure_errors_partial` the part
-that holds (same thread), `lazy_failure_other_thread_waits` the exact extent of the defect, and
-`lazy_failure_errors_fixed` the full statement for the repaired `force`.
+The last clause was false for the code before /repo commit b4f59e3 (defect D8: a failed thunk left
+`Blackhole(owner)`); since that fix it holds: `lazy_failure_errors` (main theorem), `lazy_force_never_hangs`,
+`lazy_self_dependency_always_errors`. The old rule is kept as `forceOld` with the regression theorems
+`lazy_failure_errors_old_rule_fails` / `…_old_rule_waits`.
 -/
 import GluonModel.Chan
 import GluonModel.Proofs.Chan
+import GluonModel.Proofs.ChanThreads
 
 namespace GluonModel.Props.C17
 open GluonModel.Chan
@@ -92,82 +93,139 @@ theorem lazy_forces_agree (d : Decls) (s : PState) (k : Nat) (tr : List (Nat × 
   cases e₂
   rfl
 
-/-- A force inside its own thunk reports `<<loop>>` (lazy.rs:151-157). -/
+/-- Hypotheses under which the explicit fuel of the model is immaterial: only the lazies `0 … n-1` have
+    bodies that force another lazy, and `n + 2 ≤ forceFuel` (generated programs: n = 3, fuel 8). -/
+def FuelOk (d : Decls) (n : Nat) : Prop := Bounded d n ∧ n + 2 ≤ forceFuel
+
+/-- "rather than hang": at any point of any trace (from the initial state), a force by any thread
+    neither waits for another thread nor exhausts the model's fuel — it answers with a value or an
+    error. (Forces are atomic between coroutine switches, so no blackhole survives a force.) -/
+theorem lazy_force_never_hangs (d : Decls) (n : Nat) (hf : FuelOk d n) (cells : Nat → Int)
+    (pre : List (Nat × POp)) (tid k : Nat) :
+    (∃ v, (pstep d tid (.force k) (runTrace d pre (PState.init cells)).1).2 = .forced (.ok v)) ∨
+    (∃ e, (pstep d tid (.force k) (runTrace d pre (PState.init cells)).1).2 = .forced (.err e)) := by
+  have hno := trace_noBH d n hf.1 hf.2 pre (PState.init cells) (init_noBH cells)
+  obtain ⟨h1, h2, _⟩ := force_top d n hf.1 hf.2 tid k _ hno
+  cases hr : (force d forceFuel tid k (runTrace d pre (PState.init cells)).1.lz).2 with
+  | ok v => left; exact ⟨v, by simp [pstep, hr]⟩
+  | err e => right; exact ⟨e, by simp [pstep, hr]⟩
+  | pending => exact absurd hr h2
+  | nofuel => exact absurd hr h1
+
+/-- THE LAST CLAUSE, in full (true since /repo commit b4f59e3): once a force of `k` has reported an
+    error — the computation failed or depended on itself — EVERY later force of `k`, from ANY thread,
+    after any further calls by any threads, reports an error (the same recorded one), never a value,
+    never a wait. -/
+theorem lazy_failure_errors (d : Decls) (n : Nat) (hf : FuelOk d n) (cells : Nat → Int)
+    (pre post : List (Nat × POp)) (tid tid' k : Nat) (e : FErr)
+    (h : (pstep d tid (.force k) (runTrace d pre (PState.init cells)).1).2 = .forced (.err e)) :
+    (pstep d tid' (.force k)
+      (runTrace d post (pstep d tid (.force k) (runTrace d pre (PState.init cells)).1).1).1).2
+      = .forced (.err e) := by
+  have hno := trace_noBH d n hf.1 hf.2 pre (PState.init cells) (init_noBH cells)
+  have herr : (force d forceFuel tid k (runTrace d pre (PState.init cells)).1.lz).2 = .err e := by
+    simpa [pstep] using h
+  have hrec := force_top_err_records d tid k _ hno e herr
+  have hst := trace_failed_stable d post (pstep d tid (.force k) (runTrace d pre (PState.init cells)).1).1 k e
+    (by simpa [pstep] using hrec)
+  have hfin := congrArg Prod.snd (force_on_failed d 7 tid' k _ e hst)
+  simpa [pstep, forceFuel] using hfin
+
+/-- A force inside its own thunk reports `<<loop>>` (lazy.rs:159-165, then `fail`). -/
 theorem lazy_self_dependency_errors (d : Decls) (k : Nat) (n : Int) (hd : d k = .add k n)
     (fuel tid : Nat) (s : LS) (hk : s.st k = .thunk) :
-    (force d (fuel + 2) tid k s).2 = .err .loop := by
-  have hin := force_on_blackhole d fuel tid k
-    { st := upd s.st k (.blackhole tid false), runs := k :: s.runs } tid false (by simp [upd])
-  simp at hin
-  unfold force
-  simp only [hk, hd]
-  rw [finishAdd_not_ok _ _ _ (by rw [hin]; simp)]
-  exact hin
+    (force d (fuel + 2) tid k s).2 = .err .loop :=
+  force_selfdep_thunk d k n hd fuel tid s hk
 
-/-- A self-dependent lazy never yields a value: every force of it, at any point of any trace, by any
-    thread, is `<<loop>>` or — for a thread other than the one that ran the thunk — an endless wait
-    (that second alternative is defect D8 again).
-    FULL STATEMENT WANTED: `… = .forced (.err .loop)` for every thread; false, see `lazy_failure_errors_fails`. -/
-theorem lazy_self_dependency_never_value_partial (d : Decls) (cells : Nat → Int) (k : Nat) (n : Int)
-    (hd : d k = .add k n) (pre : List (Nat × POp)) (tid : Nat) :
-    (pstep d tid (.force k) (runTrace d pre (PState.init cells)).1).2 = .forced (.err .loop) ∨
-    (pstep d tid (.force k) (runTrace d pre (PState.init cells)).1).2 = .forced .pending := by
-  have h0 : ∀ v, (PState.init cells).lz.st k ≠ .value v := by intro v; simp [PState.init]
-  have hnv := trace_selfdep_never_value d k n hd pre (PState.init cells) h0
-  have := force_selfdep_result d k n hd 6 tid (runTrace d pre (PState.init cells)).1.lz hnv
-  simpa [pstep, forceFuel] using this
+/-- A self-dependent lazy: EVERY force of it, at any point of any trace, by any thread, reports
+    `<<loop>>` (the first one from the inner force, the later ones from the recorded failure). -/
+theorem lazy_self_dependency_always_errors (d : Decls) (m : Nat) (hf : FuelOk d m) (cells : Nat → Int)
+    (k : Nat) (n : Int) (hd : d k = .add k n) (pre : List (Nat × POp)) (tid : Nat) :
+    (pstep d tid (.force k) (runTrace d pre (PState.init cells)).1).2 = .forced (.err .loop) := by
+  have hno := trace_noBH d m hf.1 hf.2 pre (PState.init cells) (init_noBH cells)
+  have hinv := trace_selfdep_inv d k n hd pre (PState.init cells) (Or.inl (by simp [PState.init]))
+  rcases hinv with h | h | h
+  · have := force_selfdep_thunk d k n hd 6 tid _ h
+    simpa [pstep, forceFuel] using this
+  · have hfin := congrArg Prod.snd (force_on_failed d 7 tid k _ _ h)
+    simpa [pstep, forceFuel] using hfin
+  · exact absurd h (hno k)
 
-/-- THE PROPERTY'S LAST CLAUSE FAILS ON THE CODE (D8): thread 0 forces a failing lazy (error `boom`),
-    then thread 1 forces it: no error, the force waits forever. -/
-theorem lazy_failure_errors_fails :
-    (runTrace (fun _ => .boom) [(0, .force 0), (1, .force 0)] (PState.init (fun _ => 0))).2 =
-      [.forced (.err .boom), .forced .pending] := by
+/-! ### Regression: the OLD rule (lazy.rs before b4f59e3, defect D8) did not have the last clause -/
+
+/-- Under the old rule: thread 0 forces a failing lazy (error `boom`), then thread 1 forces it: no
+    error, the force waits forever. -/
+theorem lazy_failure_errors_old_rule_fails :
+    (forceOld (fun _ => .boom) forceFuel 1 0
+      (forceOld (fun _ => .boom) forceFuel 0 0 ⟨fun _ => .thunk, []⟩).1).2 = .pending ∧
+    (forceOld (fun _ => .boom) forceFuel 0 0 ⟨fun _ => .thunk, []⟩).2 = .err .boom := by
   decide
 
-/-- What does hold: after a force of `k` by thread `tid` reported an error, every later force of `k` BY
-    THE SAME THREAD reports an error (`<<loop>>`), whatever any threads did in between.
-    FULL STATEMENT WANTED: the same for every forcing thread `tid'`. -/
-theorem lazy_failure_errors_partial (d : Decls) (s : PState) (tid k : Nat) (e : FErr)
-    (post : List (Nat × POp))
-    (h : (pstep d tid (.force k) s).2 = .forced (.err e)) :
-    (pstep d tid (.force k) (runTrace d post (pstep d tid (.force k) s).1).1).2 = .forced (.err .loop) := by
-  have herr : (force d forceFuel tid k s.lz).2 = .err e := by simpa [pstep] using h
-  have hbh := force_err_leaves_blackhole d forceFuel tid k s.lz e herr
-  have hst := trace_blackhole_stable d post (pstep d tid (.force k) s).1 k tid (by simpa [pstep] using hbh)
-  obtain ⟨w, hw⟩ := hst
-  have := force_on_blackhole d 7 tid k _ tid w hw
-  simp at this
-  simpa [pstep, forceFuel] using this
+/-- Under the old rule, universally: after a force of `k` by `tid` reported an error, a force by any
+    OTHER thread waits forever, at any later time; the owner itself gets `<<loop>>`. -/
+theorem lazy_failure_errors_old_rule_waits (d : Decls) (s : LSOld) (tid tid' k : Nat) (e : FErr)
+    (post : List (Nat × Nat))
+    (h : (forceOld d forceFuel tid k s).2 = .err e) :
+    (forceOld d forceFuel tid' k (runForcesOld d post (forceOld d forceFuel tid k s).1)).2 =
+      if tid = tid' then .err .loop else .pending := by
+  have hbh := forceOld_err_leaves_blackhole d forceFuel tid k s e h
+  obtain ⟨w, hw⟩ := runForcesOld_blackhole_stable d post _ k tid hbh
+  exact forceOld_on_blackhole d 7 tid' k _ tid w hw
 
-/-- The exact extent of D8: after a force of `k` by `tid` reported an error, a force by any OTHER thread
-    waits forever, at any later time. -/
-theorem lazy_failure_other_thread_waits (d : Decls) (s : PState) (tid tid' k : Nat) (e : FErr)
-    (post : List (Nat × POp)) (hne : tid' ≠ tid)
-    (h : (pstep d tid (.force k) s).2 = .forced (.err e)) :
-    (pstep d tid' (.force k) (runTrace d post (pstep d tid (.force k) s).1).1).2 = .forced .pending := by
-  have herr : (force d forceFuel tid k s.lz).2 = .err e := by simpa [pstep] using h
-  have hbh := force_err_leaves_blackhole d forceFuel tid k s.lz e herr
-  have hst := trace_blackhole_stable d post (pstep d tid (.force k) s).1 k tid (by simpa [pstep] using hbh)
-  obtain ⟨w, hw⟩ := hst
-  have := force_on_blackhole d 7 tid' k _ tid w hw
-  have hne' : ¬ tid = tid' := fun x => hne x.symm
-  simp [hne'] at this
-  simpa [pstep, forceFuel] using this
+/-! ## Coroutines (`runOps`): spawn / resume / yield -/
 
-/-- With the repaired `force` (`forceFixed`: the failure branch stores `failed e` instead of leaving the
-    blackhole) the clause holds in full: once the computation of `k` has failed, every later force of
-    `k`, from ANY thread, after any further forces by any threads, reports that error. -/
-theorem lazy_failure_errors_fixed (d : Decls) (s : LSF) (tid tid' k : Nat) (e : FErr)
-    (post : List (Nat × Nat)) (hk : s.st k = .thunk)
-    (h : (forceFixed d forceFuel tid k s).2 = .err e) :
-    (forceFixed d forceFuel tid' k (runForcesF d post (forceFixed d forceFuel tid k s).1)).2 = .err e := by
-  have hf := forceFixed_thunk_err d forceFuel tid k s e hk h
-  have hst := runForcesF_failed_stable d post _ k e hf
-  exact forceFixed_on_failed d 7 tid' k _ e hst
+/-- A finished thread is reported dead: `resume` logs `Err` (kind 12) and nothing else happens. -/
+theorem thread_finished_reported_dead (d : Decls) (fuel tid t : Nat) (rest : List Op) (s : St)
+    (h : s.th t = .done) :
+    runOps d (fuel + 1) tid (.resume t :: rest) s = runOps d fuel tid rest (s.emit ⟨tid, 12, t, 0⟩) := by
+  simp [runOps, h]
+
+/-- … and it stays finished whatever any thread runs afterwards, so every later `resume` says dead. -/
+theorem thread_finished_stays_dead (d : Decls) (t fuel tid : Nat) (ops : List Op) (s : St)
+    (h : s.th t = .done) : (runOps d fuel tid ops s).1.th t = .done :=
+  done_stable d t fuel tid ops s h
+
+/-- `resume` of a thread whose remaining operations run to the end marks it finished and answers Ok. -/
+theorem resume_runs_to_completion (d : Decls) (fuel tid t : Nat) (ops rest : List Op) (s s1 : St)
+    (h : s.th t = .ready ops) (hrun : runOps d fuel t ops s = (s1, .fin)) :
+    runOps d (fuel + 1) tid (.resume t :: rest) s =
+      runOps d fuel tid rest ({ s1 with th := upd s1.th t .done }.emit ⟨tid, 11, t, 0⟩) := by
+  simp [runOps, h, hrun, afterChild]
+
+/-- `resume` of a suspended thread runs its saved operations; if that run stops at a `yield`, what is
+    saved for the next `resume` is exactly what follows that `yield` — so the next `resume` continues
+    right after the last `yield`, nothing is skipped or repeated. -/
+theorem resume_continues_after_last_yield (d : Decls) (fuel tid t : Nat) (ops rest r : List Op)
+    (s s1 : St) (h : s.th t = .ready ops) (hrun : runOps d fuel t ops s = (s1, .yielded r)) :
+    (∃ pre, ops = pre ++ .yield :: r) ∧
+    runOps d (fuel + 1) tid (.resume t :: rest) s =
+      runOps d fuel tid rest ({ s1 with th := upd s1.th t (.ready r) }.emit ⟨tid, 11, t, 0⟩) := by
+  refine ⟨yield_saves_suffix d fuel t ops s s1 r hrun, ?_⟩
+  simp [runOps, h, hrun, afterChild]
+
+/-- `spawn` does not run anything and `yield` on the main thread does not suspend it. -/
+theorem yield_on_main_continues (d : Decls) (fuel : Nat) (rest : List Op) (s : St) :
+    runOps d (fuel + 1) 0 (.yield :: rest) s = runOps d fuel 0 rest (s.emit ⟨0, 14, 0, 0⟩) := by
+  simp [runOps]
+
+/-- Values pass between threads through channels in order: in the observation log of ANY program
+    (any thread bodies, any resume/yield schedule, any fuel), at the end and at every intermediate
+    state, the values received from channel `c` followed by those still queued are exactly the values
+    sent on `c`, in sending order. -/
+theorem program_chan_fifo (d : Decls) (cells : Nat → Int) (th : Nat → TSt) (fuel tid : Nat)
+    (ops : List Op) (c : Nat) :
+    let s := (runOps d fuel tid ops { p := PState.init cells, th := th, log := [] }).1
+    sentLog c s.log = gotLog c s.log ++ s.p.chans c := by
+  have h0 : ChanInv { p := PState.init cells, th := th, log := [] } := by
+    intro c; simp [PState.init]
+  have := runOps_chanInv d fuel tid ops _ h0 c
+  simp only [sentLog, gotLog]
+  rw [this]
+  simp
 
 /-! ## Non-vacuity: concrete instances -/
 
-def exDecls : Decls := fun k => if k = 0 then .val 42 else if k = 1 then .boom else .add 2 1
+def exDecls : Decls := fun k => if k = 0 then .val 42 else if k = 1 then .boom else if k = 2 then .add 2 1 else .val 0
 
 -- two threads interleave sends and receives on channel 0; a force in between
 def exTrace : List (Nat × POp) :=
@@ -176,18 +234,40 @@ def exTrace : List (Nat × POp) :=
 
 example : (runTrace exDecls exTrace (PState.init (fun _ => 7))).2 =
     [.sent, .sent, .got 11, .forced (.ok 42), .got 12, .empty, .stored, .loaded 5, .forced (.ok 42),
-     .forced (.err .loop), .forced (.err .loop), .forced (.err .boom), .forced (.err .loop)] := by
+     .forced (.err .loop), .forced (.err .loop), .forced (.err .boom), .forced (.err .boom)] := by
   decide
 example : sentVals 0 exTrace = [11, 12] := by decide
 example : gotVals 0 (hist exDecls exTrace (PState.init (fun _ => 7))) = [11, 12] := by decide
 example : okForces 0 (hist exDecls exTrace (PState.init (fun _ => 7))) = [42, 42] := by decide
 example : (runTrace exDecls exTrace (PState.init (fun _ => 7))).1.lz.runs = [1, 2, 0] := by decide
 example : exDecls 2 = .add 2 1 := by decide
--- hypothesis of `lazy_failure_errors_partial` / `_other_thread_waits`
+-- hypotheses of `lazy_failure_errors` / `lazy_force_never_hangs` / `lazy_self_dependency_always_errors`
+example : FuelOk exDecls 3 := by
+  refine ⟨?_, by decide⟩
+  intro k hk j m h
+  have h0 : k ≠ 0 := by omega
+  have h1 : k ≠ 1 := by omega
+  have h2 : k ≠ 2 := by omega
+  simp [exDecls, h0, h1, h2] at h
 example : (pstep exDecls 0 (.force 1) (PState.init (fun _ => 7))).2 = .forced (.err .boom) := by decide
--- hypotheses of `lazy_failure_errors_fixed`, and its conclusion on the witness of `_fails`
-example : (forceFixed (fun _ => .boom) forceFuel 0 0 ⟨fun _ => .thunk, []⟩).2 = .err .boom := by decide
-example : (forceFixed (fun _ => .boom) forceFuel 1 0
-    (forceFixed (fun _ => .boom) forceFuel 0 0 ⟨fun _ => .thunk, []⟩).1).2 = .err .boom := by decide
+-- the old witness now errors on both threads
+example : (runTrace (fun _ => .boom) [(0, .force 0), (1, .force 0)] (PState.init (fun _ => 0))).2 =
+    [.forced (.err .boom), .forced (.err .boom)] := by decide
+
+-- coroutines: thread 1 sends, yields, sends; main resumes twice with receives in between, a third resume says dead
+def exProg : St :=
+  (runOps exDecls 100 0
+    [.resume 1, .prim (.recv 0), .prim (.recv 0), .resume 1, .prim (.recv 0), .resume 1]
+    { p := PState.init (fun _ => 0),
+      th := fun t => if t = 1 then .ready [.prim (.send 0 11), .yield, .prim (.send 0 12)] else .done,
+      log := [] }).1
+example : exProg.log.reverse.map (fun e => (e.tid, e.kind, e.a, e.b)) =
+    [(1, 1, 0, 11), (1, 14, 0, 0), (0, 11, 1, 0), (0, 3, 0, 11), (0, 4, 0, 0),
+     (1, 1, 0, 12), (0, 11, 1, 0), (0, 3, 0, 12), (0, 12, 1, 0)] := by decide
+example : sentLog 0 exProg.log = [11, 12] ∧ gotLog 0 exProg.log = [11, 12] := by decide
+-- hypothesis of `resume_continues_after_last_yield`
+example : (runOps exDecls 99 1 [.prim (.send 0 11), .yield, .prim (.send 0 12)]
+    { p := PState.init (fun _ => 0), th := fun _ => .done, log := [] }).2 matches .yielded [.prim (.send 0 12)] := by
+  decide
 
 end GluonModel.Props.C17
